@@ -506,6 +506,13 @@ private theorem step_inv_resolver (st : CacheState) (op : Op) (hop : isResolverO
             split
             · exact h
             · intro hv; simp at hv
+  | assignResolver lvl tn fn r same =>
+    simp only [step]
+    split
+    · exact h
+    · intro hv
+      have : cfgCacheTracksAssignments = true := by decide
+      simp [this] at hv
   | replaceTypes es ds hl => simp [isResolverOp] at hop
 
 /-- **Cache soundness (the statement: the verdict is recomputed after resolvers are reassigned).**
@@ -894,6 +901,7 @@ theorem step_inv (st : CacheState) (op : Op) (hh : HonestOp st op) (h : CacheInv
   | registerDefaultResolver tn r a => exact step_inv_resolver st _ rfl h
   | registerResolver tn fn r a sm => exact step_inv_resolver st _ rfl h
   | registerSubscription tn fn r a sm => exact step_inv_resolver st _ rfl h
+  | assignResolver lvl tn fn r sm => exact step_inv_resolver st _ rfl h
 
 /-- every replace request met along the history is honest about object identity -/
 def HonestRun : CacheState → List Op → Prop
@@ -910,6 +918,12 @@ theorem cache_sound_all (st : CacheState) (h : CacheInv st) (ops : List Op) (hh 
   induction ops generalizing st with
   | nil => exact h
   | cons op ops ih => exact ih _ (step_inv st op hh.1 h) hh.2
+
+/-- fix C13-HH1 is in the tree: the cached verdict stands only for the resolver callables it was computed with
+    (so `cache_sound` / `cache_sound_all` cover PLAIN ASSIGNMENT of resolvers at the schema, type and field level) -/
+theorem cache_tracks_assignments : cfgCacheTracksAssignments = true := by decide
+/-- fix C13-HH2 is in the tree: the signature that is validated is the one of the callable the executor calls -/
+theorem signature_of_the_callable : cfgOuterSignature = true := by decide
 
 /-! #### the legacy variants of `_replace_types_and_directives` (code that no longer exists) -/
 
